@@ -36,7 +36,8 @@ ATOMS = ['word', 'W' * 80, '\n', '\n\n', '  indented', '\t', '#', '"', "'",
          '\x1c', '\x85', '\u2028', '\u2029', '\xe9', '\xa0', 'trail ', ' ']
 BOUNDS = {'quick': dict(all_kinds=2, one_kind=3),
           'thorough': dict(all_kinds=3, one_kind=4)}
-KINDS = ['plain', 'documented', 'removal', 'renamed', 'changed', 'shared']
+KINDS = ['plain', 'documented', 'removal', 'removal-bare', 'renamed',
+         'changed', 'shared']
 YAML_BREAKS = re.compile('[\n\r\x85\u2028\u2029]')
 
 
@@ -72,6 +73,12 @@ def make_defaults(P, kind, desc, variant=0):
                            deprecated_for_removal=True,
                            deprecated_reason=desc or 'r',
                            deprecated_since=since)]
+    elif kind == 'removal-bare':
+        # nothing between the reason and the rule line; the reason itself
+        # may be empty (the constructor only rejects None)
+        d = [P.RuleDefault('svc:gone2', cs, deprecated_for_removal=True,
+                           deprecated_reason=desc, deprecated_since=since),
+             P.RuleDefault('svc:kept', 'role:k')]
     elif kind == 'renamed':
         dep = P.DeprecatedRule('svc:old', 'role:old',
                                deprecated_reason=desc or 'r',
